@@ -47,9 +47,9 @@ def make_stack(shape, dtype, pattern, seed):
     else:  # one-hot: a single bright voxel at a position that is not symmetric under axis swaps
         v = np.zeros(n)
         v[(seed * 7 + n // 3) % n] = 1e12
-    if dtype == "float32":
+    if dtype.startswith("float"):
         a = (v % 1009) / 1008.0 if pattern != "one-hot" else np.minimum(v, 1.0)
-        return a.astype(np.float32).reshape(shape)
+        return a.astype(dtype).reshape(shape)
     m = UMAX[dtype]
     a = v % (m + 1) if pattern != "one-hot" else np.minimum(v, m)
     return a.astype(dtype).reshape(shape)
@@ -110,7 +110,7 @@ def check_tiff(rep, spec, base):
         if src.startswith("uint") and dst == "float32":
             x = x / UMAX[src]
             tol = tol / UMAX[src] + 1e-6  # float32 rounding of the quotient
-        elif src == "float32" and dst.startswith("uint"):
+        elif src.startswith("float") and dst.startswith("uint"):
             x = x * UMAX[dst]
             tol = tol * UMAX[dst] + 1.0  # truncation or rounding to an integer
         # uint -> wider uint: plain cast, values unchanged
@@ -323,6 +323,16 @@ def run(ctx):
                                 spec = dict(kind="other", format=fmt, shape=list(shape), dtype=dtype, pattern=pattern, seed=k, read_dtype=rd)
                                 check_other_format(rep, spec, base)
                                 ctx.case("nrrd-npy", dict(format=fmt, shape=list(shape), dtype=dtype, pattern=pattern, read=rd), nontrivial=nontrivial)
+
+        # other float widths: the documented float -> unsigned rescaling on save holds for every floating dtype
+        for shape in [(2, 3, 5, 1), (3, 1, 2, 3), (1, 1, 1, 1), (5, 2, 3, 1)]:
+            for dtype in ("float16", "float64"):
+                for pattern in ("ramp", "one-hot"):
+                    for sv in ("uint8", "uint16"):
+                        k += 1
+                        spec = dict(kind="tiff", shape=list(shape), dtype=dtype, pattern=pattern, seed=k, read_dtype_as="class", save_dtype=sv, read_dtype=sv)
+                        check_tiff(rep, spec, base)
+                        ctx.case("tiff-conversion", dict(shape=list(shape), dtype=dtype, pattern=pattern, conv=dict(save_dtype=sv, read_dtype=sv)), nontrivial=int(np.prod(shape)) > 1)
 
         # rasterisation
         try:
